@@ -31,6 +31,8 @@ def load_mutants():
         meta, patch = os.path.join(sd, name, 'meta.json'), os.path.join(sd, name, 'patch.diff')
         if os.path.exists(meta) and os.path.exists(patch):
             mj = json.load(open(meta))
+            if mj.get('obsolete'):
+                continue        # no longer a breaking change (a later repo fix made it harmless)
             muts.append({'id': 'seeded-' + name, 'kind': 'break', 'props': [mj.get('check') or name[:3]],
                          'edits': [], 'patch': patch})
     bd = os.path.join(sd, 'benign')
